@@ -6,12 +6,15 @@ git -C /repo diff --quiet || { echo "/repo is dirty"; exit 2; }
 fail=0
 for d in seeded/*/; do
   name=$(basename $d); id=${name%%-*}
+  # a change that belongs to a neighbouring property's quantifier names the check that catches it
+  by=$(python3 -c "import json,sys;print(json.load(open('$d/meta.json')).get('caught_by',''))" 2>/dev/null)
+  [ -n "$by" ] && id=$by
   if ! git -C /repo apply $PWD/$d/patch.diff 2>/dev/null; then echo "$name: patch does not apply"; fail=1; continue; fi
   out=$(./check $id --tier quick 2>&1); rc=$?
   git -C /repo checkout -- .
   sig=$(echo "$out" | grep -m1 '^violation in part' | sed 's/^violation in part //' | cut -c1-110)
   [ -z "$sig" ] && sig=$(echo "$out" | grep -m1 '^VIOLATION' | cut -c1-110)
-  echo "$name: exit=$rc $sig"
+  echo "$name: check=$id exit=$rc $sig"
   [ $rc -ne 1 ] && fail=1
 done
 exit $fail
